@@ -99,6 +99,15 @@ fn run_case(line: &str, fails: &mut Vec<(String, String)>) -> String {
                 if out.chars().count() != text.chars().count() {
                     fails.push(("C16".into(), format!("the normaliser maps {text:?} ({} chars) to {out:?} ({} chars)", text.chars().count(), out.chars().count())));
                 }
+                let charwise: String = text.chars().map(|c| {
+                    let mut buf = [0u8; 4];
+                    KyteaFullwidthFilter.filter(&*c.encode_utf8(&mut buf))
+                }).collect();
+                if charwise != out {
+                    let k = out.chars().zip(charwise.chars()).position(|(a, b)| a != b).unwrap_or(0);
+                    let ctx: String = text.chars().skip(k.saturating_sub(1)).take(3).collect();
+                    fails.push(("C16".into(), format!("the normaliser is not character-wise: near {ctx:?} (position {k}) the image of the string differs from the images of its characters")));
+                }
                 let twice = KyteaFullwidthFilter.filter(&out);
                 if twice != out {
                     fails.push(("C16".into(), format!("the normaliser is not idempotent on {text:?}: {out:?} -> {twice:?}")));
@@ -170,6 +179,31 @@ fn gen(out: &mut dyn Write, thorough: bool, seed: u64) {
         }
     }
     writeln!(out, "N {} c16", hexs(&chunk)).unwrap();
+    // context: every ordered pair over the characters the filter touches, the half-width katakana block with its sound
+    // marks, combining marks and a few neighbours (a filter that looks at the next character is invisible character-wise)
+    let mut special: Vec<char> = vec![];
+    for c in (0u32..=0x10FFFF).filter_map(char::from_u32) {
+        let mut buf = [0u8; 4];
+        let one: &str = c.encode_utf8(&mut buf);
+        if KyteaFullwidthFilter.filter(one) != one || (0xFF61..=0xFF9F).contains(&(c as u32)) {
+            special.push(c);
+        }
+    }
+    special.extend(['\u{3099}', '\u{309A}', '\u{301}', '\u{200D}', 'カ', 'ハ', 'ウ', 'あ', '漢', '\n', '\0', '𠮷']);
+    for &a in &special {
+        let mut line = String::new();
+        for &b in &special {
+            // pairs separated by a character that no rule can combine with: one N line per first character
+            line.push(a);
+            line.push(b);
+            line.push('\u{2028}');
+        }
+        writeln!(out, "N {} c16", hexs(&line)).unwrap();
+    }
+    for _ in 0..(if thorough { 20000 } else { 2000 }) {
+        let t: String = (0..r.range(2, 6)).map(|_| *r.pick(&special)).collect();
+        writeln!(out, "N {} c16", hexs(&t)).unwrap();
+    }
     let opts = GenOpts { windows: &[1, 2, 3, 4, 9], max_ngrams: 6, max_words: 4, max_word_len: 5 };
     let all_ws: Vec<String> = {
         let letters = ['D', 'R', 'H', 'T', 'K', 'O', 'G'];
